@@ -1,6 +1,6 @@
 """Per-property manifest texts (level, trusted base).  Harness lists come from the annotations."""
 
-HOOK_COMMITS = ['83a615d', '70f6a25']
+HOOK_COMMITS = ['83a615d', '70f6a25', '2ebdcd0']
 
 COMMON_NOTE = ('Trusted: Kani 0.68 MIR->goto translation and CBMC 6.11/CaDiCaL; the specification functions written in the '
                'harness files from the property statement; the stubs and assumptions listed in the evidence file. '
